@@ -161,7 +161,11 @@ func judgeC09(c *core.Case, cfg *core.Config) core.Verdict {
 		v.Classes = append(v.Classes, "rejected-consistently")
 		return v
 	}
-	// purity of Run
+	// purity of Run. A small memory budget is in force for all runs of this case, so that allocation left over
+	// from an earlier run of a long-lived VM would matter.
+	savedBudget := vm.MemoryBudget
+	vm.MemoryBudget = []int{40, 80, 300, 1000000}[len(c.Source)%4]
+	defer func() { vm.MemoryBudget = savedBudget }()
 	progBefore := dumps[0]
 	mkEnv := func() (interface{}, *core.Env) {
 		var l []string
